@@ -166,6 +166,13 @@ def _pattern_source(ctx, fn: FuncInfo, e: ast.expr, depth: int = 6):
                 e = max(prev, key=lambda a: a.lineno).value
                 continue
             it = r._loop_iter_for(e.id)
+            if isinstance(it, ast.Name):
+                # a list filled element by element (`pats = []` ... `pats.append(re.compile(...))`): what is appended
+                apps = [c.args[0] for c in walk_no_nested(fn.node) if isinstance(c, ast.Call) and isinstance(c.func, ast.Attribute) and c.func.attr == "append"
+                        and isinstance(c.func.value, ast.Name) and c.func.value.id == it.id and c.args]
+                if len(apps) == 1:
+                    e = apps[0]
+                    continue
             if it is not None:
                 it = r.expand(it)
                 if isinstance(it, (ast.ListComp, ast.GeneratorExp)):
@@ -174,6 +181,13 @@ def _pattern_source(ctx, fn: FuncInfo, e: ast.expr, depth: int = 6):
                 if isinstance(it, (ast.List, ast.Tuple)) and it.elts:
                     e = it.elts[0]
                     continue
+                # a list filled element by element (`pats = []` ... `pats.append(re.compile(...))`): what is appended
+                if isinstance(it, ast.Name):
+                    apps = [c.args[0] for c in walk_no_nested(fn.node) if isinstance(c, ast.Call) and isinstance(c.func, ast.Attribute) and c.func.attr == "append"
+                            and isinstance(c.func.value, ast.Name) and c.func.value.id == it.id and c.args]
+                    if len(apps) == 1:
+                        e = apps[0]
+                        continue
             return None
         if isinstance(e, ast.Call):
             q = r.callee_qname(e) or ""
